@@ -73,6 +73,11 @@ def _vp(p):
     return valid_pulse(p)
 
 
+def _isinst(r, cls):
+    from pyvc.core import isinstance_term
+    return isinstance_term(r, cls)
+
+
 from pyvc.core import FuncRef as _FR  # noqa: E402
 _PULSE_CLS = _FR("Pulse", "class")
 
@@ -99,6 +104,7 @@ contract(PF, "Pulse.ConstantPulse", props=("C02", "C15", "C16"),
          raises={"ValueError": lambda c: z3.Or(T(c.duration) < 1, T(c.amplitude) < 0)},
          ensures=lambda c: [
              ("valid", _vp(T(c.res))),
+             ("is-a-Pulse-object", _isinst(T(c.res), "Pulse")),
              ("duration", p_duration(T(c.res)) == T(c.duration)),
              ("const", z3.Implies(const_defs(T(c.res)), z3.And(IS_CONST(T(c.res)), CONST_AMP(T(c.res)) == T(c.amplitude), CONST_DET(T(c.res)) == T(c.detuning)))),
              ("detuned-delay-iff-zero-amp", z3.Implies(idd_def(T(c.res)), IS_DETUNED_DELAY(T(c.res)) == (T(c.amplitude) == 0))),
